@@ -57,6 +57,14 @@ func checkC13(p *Prog, r *Report) {
 	ruleSignX(p, r)
 	ruleEqRefl(p, r)
 	ruleXBuf(p, r)
+	ruleGuidCut(p, r)
+	ruleGpsForm(p, r)
+	ruleRatForm(p, r)
+	ruleDateForms(p, r)
+	r.Floor("DATEFORMS", 7)
+	r.Floor("RATFORM", 5)
+	r.Floor("GPSFORM", 2)
+	r.Floor("GUIDCUT", 1)
 	r.Floor("XBUF", 1)
 	r.Floor("EQREFL", 1)
 	r.Floor("SIGNX", 1)
